@@ -445,7 +445,7 @@ class TemperatureServiceData(ServiceData):
     @data.setter
     def data(self, value: Union[float, bytes, bytearray]):
         if isinstance(value, float):
-            value = struct.pack("<i", int(value * 100) & 0xFFFFFF)
+            value = struct.pack("<i", round(value * 100) & 0xFFFFFF)
             self._data = value[:3] + bytes([0xFE])
         elif isinstance(value, (bytes, bytearray)):
             self._data = value
